@@ -79,6 +79,7 @@ func checkC26(w *World, r *Run) {
 	checkC26Run(w, r, ruleRun, w.Prog.FuncValue(runFn), logFn)
 	checkC26Lock(w, r, ruleLock)
 	checkC26Grounding(w, r, ruleGround, w.Prog.FuncValue(logFn))
+	checkSinkRecoveryTracksValidator(w, r)
 	checkSerializedTimesAreUTC(w, r)
 	checkC26VerifierAcceptsWhatIsWritten(w, r)
 	r.NotCovered("signature validity, hash values and Merkle roots (runtime values); ordering of START/COMPLETE entries of concurrent calls")
